@@ -1,6 +1,6 @@
 use std::{
     path::{Path, PathBuf},
-    env::current_dir, sync::OnceLock, fs::ReadDir,
+    env::current_dir, ffi::{OsStr, OsString}, sync::OnceLock, fs::ReadDir,
 };
 
 use regex::Regex;
@@ -50,11 +50,10 @@ fn ls_file_dir(file: &Path) -> Result<ReadDir> {
     Ok(ls_dir)
 }
 
-fn filename(path: &Path) -> Result<String> {
+fn filename(path: &Path) -> Result<OsString> {
     let fname = path.file_name()
-        .ok_or(XcpError::InvalidArguments(format!("Invalid path found: {:?}", path)))?
-        .to_string_lossy();
-    Ok(fname.to_string())
+        .ok_or(XcpError::InvalidArguments(format!("Invalid path found: {:?}", path)))?;
+    Ok(fname.to_os_string())
 }
 
 fn has_backup(file: &Path) -> Result<bool> {
@@ -78,18 +77,19 @@ fn next_backup_num(file: &Path) -> Result<u64> {
     Ok(current + 1)
 }
 
-fn is_num_backup(base_file: &str, candidate: &Path) -> Option<u64> {
+fn is_num_backup(base_file: impl AsRef<OsStr>, candidate: &Path) -> Option<u64> {
+    // File names are arbitrary bytes, not necessarily UTF-8: compare them as such.
     let cname = candidate
-        .file_name()?
-        .to_str()?;
-    if !cname.starts_with(base_file) {
+        .file_name()?;
+    if !cname.as_encoded_bytes().starts_with(base_file.as_ref().as_encoded_bytes()) {
         return None
     }
+    // The backup suffix itself is ASCII, so a non-UTF-8 extension is not one.
     let ext = candidate
         .extension()?
-        .to_string_lossy();
+        .to_str()?;
     let num = get_regex()
-        .captures(&ext)?
+        .captures(ext)?
         .get(1)?
         .as_str()
         .parse::<u64>()
